@@ -261,6 +261,16 @@ Theorem C06_straight_line_error_fails : forall fi fa k m s sa acc msg st',
   walk_line fa k m (sa, acc) = (Ok (Some msg), st') -> ~ exists s', LineRun fi s s'.
 Proof. exact straight_line_error_fails. Qed.
 
+(* the same over the host's turns: [HostLine fi s] - the host calls the interpreter turn after turn while statements
+   remain on the current line, and every one of these turns succeeds *)
+Theorem C06_host_line_complete : forall fi fa s, HostLine fi s ->
+  forall k m sa acc, R s sa -> straight_line (cur_line s) = true ->
+  match walk_line fa k m (sa, acc) with
+  | (Ok (Some _), _) => False
+  | _ => True
+  end.
+Proof. exact host_line_complete. Qed.
+
 (* ... and over the analysis of a whole program text (Proofs/LineComplete.v): every Error message of the analysis of
    a program without DEF tokens is a tokenization error of pass 1 (the line was never stored) or was produced by the
    walk on a stored line ln; if that line is straight, executing it fails - from EVERY interpreter state that holds
@@ -274,7 +284,7 @@ Theorem C06_reported_error_means_failure : forall fuel text,
        /\ (straight_line ts = true ->
            forall fi s, st_toks s = st_toks (p_prog (pass1_of' text)) -> st_keys s = st_keys (p_prog (pass1_of' text)) ->
              immediate s = [] -> loc s = mkloc (Some ln) 0 -> caps_inv s -> functions s = [] ->
-             ~ exists s', LineRun fi s s').
+             (~ exists s', LineRun fi s s') /\ ~ HostLine fi s).
 Proof. exact reported_error_means_failure. Qed.
 
 (* a failing statement of the line is a failing turn of the host loop *)
@@ -443,11 +453,11 @@ Qed.
 Example C06_line_example_good :
   let st := C06_line_state "10 A = 1 : PRINT A : B$ = ""x""" in
   R st st /\ straight_line (cur_line st) = true
-  /\ (exists s', LineRun 200 st s')
+  /\ (exists s', LineRun 200 st s') /\ HostLine 200 st
   /\ fst (walk_line 200 10 (C06_line_map "10 A = 1 : PRINT A : B$ = ""x""") (st, [])) = Ok None.
 Proof.
   cbn zeta. split; [apply C06_line_state_R; vm_compute; reflexivity|]. split; [vm_compute; reflexivity|].
-  split; [|vm_compute; reflexivity].
+  split; [|split; [apply (host_run_sound 200 10); vm_compute; reflexivity | vm_compute; reflexivity]].
   assert (E : exists s', line_run 10 200 (C06_line_state "10 A = 1 : PRINT A : B$ = ""x""") = Some s')
     by (eexists; vm_compute; reflexivity).
   destruct E as [s' E]. exists s'. exact (line_run_sound 200 10 _ s' E).
@@ -545,6 +555,7 @@ Print Assumptions C06_program_sound_else.
 Print Assumptions C06_program_sound_input.
 Print Assumptions C06_straight_line_complete.
 Print Assumptions C06_straight_line_error_fails.
+Print Assumptions C06_host_line_complete.
 Print Assumptions C06_reported_error_means_failure.
 Print Assumptions C06_statement_failure_is_turn_failure.
 Print Assumptions C06_turn_success_is_statement_success.
